@@ -32,13 +32,6 @@ Theorem C11_euler_deg_rad_agree : forall angles order,
   euler ROps true angles order = euler ROps false (map (fun a => a * PI / 180) angles) order.
 Proof. exact euler_deg_rad_agree. Qed.
 
-(* the code converts degrees with the binary64 constant pi64 = 884279719003555/281474976710656 (tie lemma
-   T_euler_deg_ok: euler(deg) = euler_rad on a * pi64 / 180); with any constant k in place of PI the angle is off by
-   exactly |a| |k - PI| / 180.  The numeric bound |pi64 - PI| < 1.3e-16 is NOT proved here (coq-interval proves it in
-   10 s but rests on primitive-integer assumptions this development does not accept); covered by the correspondence check. *)
-Theorem C11_euler_deg_pi_constant_gap : forall a k,
-  Rabs (a * k / 180 - a * PI / 180) = Rabs a * Rabs (k - PI) / 180.
-Proof. exact deg_angle_gap. Qed.
 
 (* ------------------------------------------------------------------ rotation_from_up_and_look *)
 (* for non-zero, non-collinear up and look at any magnitude: a proper rotation taking up to +y (times |up|)
@@ -106,6 +99,41 @@ Theorem C11_scale_inverse_both_orders : forall x y z, x <> 0 -> y <> 0 -> z <> 0
   inverse_pair (scale_fwd x y z) (scale_fwd (1 / x) (1 / y) (1 / z)).
 Proof. exact scale_inverse. Qed.
 
+Theorem C11_apply_vector_ignores_translation : forall m p,
+  apply_point ROps m true p = m3apply ROps (mupper3 m) p.
+Proof. exact apply_vector_is_block. Qed.
+
+(* ------------------------------------------------------------------ compose_transforms *)
+(* PARTIAL: the property quantifies over all 4x4 matrices; the sequential reading needs every matrix that is followed
+   by another one to have last row (0,0,0,1) (the last may be anything).  Without that it is false of the code, see
+   C11_compose_projective_refuted and known_findings/C11.json (compose_non_affine). *)
+Theorem C11_compose_left_to_right_partial : forall ms p, Forall (affine ROps) (removelast ms) ->
+  mapply_pt ROps (compose_transforms ROps ms) p = fold_left (fun q m => mapply_pt ROps m q) ms p.
+Proof. exact compose_left_to_right_butlast. Qed.
+(* witness (run on the implementation too): A = identity with A[3,0] = 1, B = translation by (1,0,0), p = (1,0,0):
+   apply(compose(A,B))(p) = (3,0,0) but apply(B)(apply(A)(p)) = (2,0,0): apply_transform drops w without dividing *)
+Theorem C11_compose_projective_refuted : exists a b p,
+  mapply_pt ROps (compose_transforms ROps [a; b]) p <> mapply_pt ROps b (mapply_pt ROps a p).
+Proof. exact compose_projective_refuted. Qed.
+Theorem C11_compose_app : forall a b,
+  compose_transforms ROps (a ++ b) = mmul ROps (compose_transforms ROps b) (compose_transforms ROps a).
+Proof. exact compose_app. Qed.
+
+(* ================================================================================================================
+   definitional: pins the shape of the model; the content is carried by the traced ties / correspondence
+   ================================================================================================================ *)
+(* the model of apply_transform on a point is Mat.mapply_pt, on a vector Mat.mapply_vec: the `acts` theorems above,
+   stated with mapply_pt, are statements about apply_transform(M)(p) *)
+Theorem C11_apply_point_is_mapply : forall m p,
+  apply_point ROps m false p = mapply_pt ROps m p /\ apply_point ROps m true p = mapply_vec ROps m p.
+Proof. intros m p. exact (conj (apply_point_pt m p) (apply_point_vec m p)). Qed.
+(* the code converts degrees with the binary64 constant pi64 = 884279719003555/281474976710656 (tie lemma
+   T_euler_deg_ok: euler(deg) = euler_rad on a * pi64 / 180); with any constant k in place of PI the angle is off by
+   exactly |a| |k - PI| / 180.  The numeric bound |pi64 - PI| < 1.3e-16 is NOT proved here (coq-interval proves it in
+   10 s but rests on primitive-integer assumptions this development does not accept); covered by the correspondence check. *)
+Theorem C11_euler_deg_pi_constant_gap : forall a k,
+  Rabs (a * k / 180 - a * PI / 180) = Rabs a * Rabs (k - PI) / 180.
+Proof. exact deg_angle_gap. Qed.
 (* ------------------------------------------------------------------ apply_transform *)
 (* w = 1 for points, w = 0 for vectors; rows 0..2 of M (x, y, z, w)^T *)
 Theorem C11_apply_w1_w0 : forall m w x y z,
@@ -115,9 +143,6 @@ Theorem C11_apply_w1_w0 : forall m w x y z,
      (m10 m * x + m11 m * y + m12 m * z + m13 m * h)
      (m20 m * x + m21 m * y + m22 m * z + m23 m * h).
 Proof. exact apply_point_formula. Qed.
-Theorem C11_apply_vector_ignores_translation : forall m p,
-  apply_point ROps m true p = m3apply ROps (mupper3 m) p.
-Proof. exact apply_vector_is_block. Qed.
 Theorem C11_apply_stack_is_rowwise : forall m d w ps k,
   nth_error (apply_stack ROps m d w ps) k = option_map (apply_single ROps m d w) (nth_error ps k).
 Proof. exact apply_stack_nth. Qed.
@@ -125,18 +150,9 @@ Theorem C11_apply_discard_z_only_drops_z : forall m w p,
   apply_single ROps m true w p = firstn 2 (apply_single ROps m false w p) /\
   apply_single ROps m false w p = vlist (apply_point ROps m w p).
 Proof. exact apply_discard_z. Qed.
-
-(* ------------------------------------------------------------------ compose_transforms *)
-(* for every finite list of matrices with last row (0,0,0,1) *)
-Theorem C11_compose_left_to_right : forall ms p, Forall (affine ROps) ms ->
-  mapply_pt ROps (compose_transforms ROps ms) p = fold_left (fun q m => mapply_pt ROps m q) ms p.
-Proof. exact compose_left_to_right. Qed.
 (* as matrices, without any hypothesis: compose(A, B) = B . A, compose(ms1 ++ ms2) = compose(ms2) . compose(ms1) *)
 Theorem C11_compose_two : forall a b, compose_transforms ROps [a; b] = mmul ROps b a.
 Proof. exact compose_two. Qed.
-Theorem C11_compose_app : forall a b,
-  compose_transforms ROps (a ++ b) = mmul ROps (compose_transforms ROps b) (compose_transforms ROps a).
-Proof. exact compose_app. Qed.
 Theorem C11_compose_nil_identity : compose_transforms ROps [] = I4 ROps.
 Proof. exact compose_nil. Qed.
 
@@ -147,6 +163,10 @@ Proof. unfold orthogonal3. apply P_mat.M3_inj; P_mat.munf; field. Qed.
 Example C11_up_look_inhabited : ~ collinear (V3 0 2 0) (V3 1 1 1).
 Proof. unfold collinear. P_vec.vunf. intros H. injection H as H1 H2 H3. Lra.lra. Qed.
 
+Example C11_compose_partial_inhabited :
+  Forall (affine ROps) (removelast [mtranslation ROps (V3 1 2 3); proj_witness_a]).
+Proof. repeat constructor; reflexivity. Qed.
+
 Definition C11_all := (C11_euler_is_ordered_product, C11_euler_applies_in_order, C11_axis_rotation_acts,
   C11_euler_proper, C11_euler_deg_rad_agree, C11_euler_deg_pi_constant_gap, C11_up_look_spec, C11_up_look_rejects_zero,
   C11_rotation_last_row, C11_rotation_acts, C11_rotation_matrix_used_as_given, C11_rotation_inverse_both_orders,
@@ -155,5 +175,5 @@ Definition C11_all := (C11_euler_is_ordered_product, C11_euler_applies_in_order,
   C11_non_uniform_scale_outcome, C11_scale_rejects_zero, C11_scale_rejects_negative, C11_uniform_scale_is_non_uniform,
   C11_scale_last_row, C11_scale_acts, C11_scale_inverse_both_orders,
   C11_apply_w1_w0, C11_apply_vector_ignores_translation, C11_apply_stack_is_rowwise, C11_apply_discard_z_only_drops_z,
-  C11_compose_left_to_right, C11_compose_two, C11_compose_app, C11_compose_nil_identity).
+  C11_compose_left_to_right_partial, C11_compose_projective_refuted, C11_apply_point_is_mapply, C11_compose_two, C11_compose_app, C11_compose_nil_identity).
 Print Assumptions C11_all.
